@@ -21,6 +21,7 @@ def check(run):
              'requires that a run of values is open; nulls never emit their own index')
     for cfg in configs(run):
         F = run.facts(cfg)
+        if cfg == 'base': __import__('common').pins(run, F, 'agg_delegates')
         # helpers this property stands on (rule sets owned by other properties, see common.deps)
         from common import deps as _deps
         _deps(run, F, 'isnone')
